@@ -112,7 +112,7 @@ func TestC13Ed25519Internal(t *testing.T) {
 	}
 	t.Run("grouplaw", func(t *testing.T) {
 		sub := "grouplaw/ed25519-internal"
-		vlib.Check(t, vlib.N(400, 1600), func(t *rapid.T) {
+		vlib.Check(t, vlib.N(300, 1200), func(t *rapid.T) {
 			a, pcls := c13Exp(t, "a")
 			rel := rapid.SampledFrom([]string{"Q=P", "Q=-P", "Q=identity", "Q=kP", "Q=G", "Q=-G", "Q=random", "Q=random"}).Draw(t, "rel")
 			var b *big.Int
@@ -308,5 +308,97 @@ func TestC13Ed25519Internal(t *testing.T) {
 				vlib.Sample(sub, rel+"/"+kcls+"/"+mrel, desc)
 			}
 		})
+	})
+	t.Run("sweep", func(t *testing.T) {
+		// scalars next to 0, r, 2r, … and the top of the 32-byte width; small (m, n) grid with structured Q
+		sub := "sweep/ed25519-internal"
+		span := int64(vlib.N(24, 300))
+		one := big.NewInt(1)
+		max := new(big.Int).Sub(new(big.Int).Lsh(one, 256), one)
+		var ks []*big.Int
+		seen := map[string]bool{}
+		addK := func(k *big.Int) {
+			if k.Sign() < 0 || k.Cmp(max) > 0 || seen[k.String()] {
+				return
+			}
+			seen[k.String()] = true
+			ks = append(ks, k)
+		}
+		for c := int64(0); c <= 15; c++ {
+			if !vlib.Thorough() && c > 2 && c != 15 {
+				continue
+			}
+			for d := -span; d <= span; d++ {
+				addK(new(big.Int).Add(new(big.Int).Mul(r, big.NewInt(c)), big.NewInt(d)))
+			}
+		}
+		for d := int64(0); d <= span; d++ {
+			addK(new(big.Int).Sub(max, big.NewInt(d)))
+		}
+		other := new(big.Int).Rsh(r, 3)
+		for i, k := range ks {
+			if i%vlib.NShards != vlib.Shard {
+				continue
+			}
+			vlib.Eval(sub)
+			var F, V pointR1
+			F.fixedMult(vlib.LE(k, paramB))
+			if got, want := c13Enc(&F), c13Want(k); got != want {
+				if !vlib.ReportDirect(t, "C13/ed25519-internal.fixedMult/boundary-scalar", fmt.Sprintf("k=%s: got %s want %s", k.Text(16), got, want), map[string]interface{}{"k": k.Text(16)}) {
+					return
+				}
+			}
+			V.doubleMult(c13Mk(other), vlib.LE(k, paramB), vlib.LE(k, paramB))
+			e := new(big.Int).Mul(k, other)
+			e.Add(e, k)
+			if got, want := c13Enc(&V), c13Want(e); got != want {
+				if !vlib.ReportDirect(t, "C13/ed25519-internal.doubleMult/boundary-scalar", fmt.Sprintf("m=n=%s Q=%s·G: got %s want %s", k.Text(16), other.Text(16), got, want), map[string]interface{}{"k": k.Text(16)}) {
+					return
+				}
+			}
+			vlib.NonTrivialH(sub, "boundary-scalar", vlib.Hash64(k.Bytes()))
+		}
+		if vlib.Shard == 0 {
+			vlib.Exhaustive(fmt.Sprintf("C13 ed25519-internal: scalars within ±%d of c·r (c=0…15; quick tier: c ∈ {0,1,2,15}) and of 2^256−1, fixedMult and doubleMult", span), int64(len(ks)), "all shards together")
+		}
+		inv2 := new(big.Int).ModInverse(big.NewInt(2), r)
+		var qs []*big.Int
+		for _, d := range []int64{1, -1, 2, 3, -3, 5, 7, 9, 15, 16, 17, 31, 33, 63, 65, 0} {
+			qs = append(qs, new(big.Int).Mod(big.NewInt(d), r))
+		}
+		for _, d := range []int64{1, -1, 3, -3, 5, 7} {
+			f := new(big.Int).Set(inv2)
+			for j := 0; j < 4; j++ {
+				q := new(big.Int).Mul(big.NewInt(d), f)
+				qs = append(qs, q.Mod(q, r))
+				f.Mul(f, inv2).Mod(f, r)
+			}
+		}
+		g := vlib.N(12, 40)
+		idx := 0
+		for _, b := range qs {
+			for m := 0; m <= g; m++ {
+				for n := 0; n <= g; n++ {
+					idx++
+					if idx%vlib.NShards != vlib.Shard {
+						continue
+					}
+					vlib.Eval(sub + "/doubleMult-grid")
+					var V pointR1
+					V.doubleMult(c13Mk(b), vlib.LE(big.NewInt(int64(m)), paramB), vlib.LE(big.NewInt(int64(n)), paramB))
+					e := new(big.Int).Mul(big.NewInt(int64(n)), b)
+					e.Add(e, big.NewInt(int64(m)))
+					if got, want := c13Enc(&V), c13Want(e); got != want {
+						if !vlib.ReportDirect(t, "C13/ed25519-internal.doubleMult/grid", fmt.Sprintf("m=%d n=%d Q=%s·G: got %s want %s", m, n, b.Text(16), got, want), map[string]interface{}{"m": m, "n": n, "b": b.Text(16)}) {
+							return
+						}
+					}
+					vlib.NonTrivialH(sub+"/doubleMult-grid", "grid", vlib.Hash64(b.Bytes(), []byte{byte(m), byte(n)}))
+				}
+			}
+		}
+		if vlib.Shard == 0 {
+			vlib.Exhaustive(fmt.Sprintf("C13 ed25519-internal: doubleMult(m,n,Q) for 0 ≤ m,n ≤ %d and %d structured Q", g, len(qs)), int64(len(qs)*(g+1)*(g+1)), "all shards together")
+		}
 	})
 }
